@@ -257,6 +257,8 @@ def parseTree : Nat → List String → Option (Tree × List String)
     | "N", i :: rest => i.toNat?.map (fun i => (.N i, rest))
     | "W", i :: rest => i.toNat?.map (fun i => (.W i, rest))
     | "H", i :: rest => i.toNat?.map (fun i => (.H i, rest))
+    | "HD", i :: rest => i.toNat?.map (fun i => (.H i, rest))   -- the same through a DELETE API
+    | "HP", i :: rest => i.toNat?.map (fun i => (.H i, rest))   -- the same through a POST API with a JSON body
     | "G", i :: rest => i.toNat?.map (fun i => (.G i, rest))
     | "JM", i :: rest =>
       match i.toNat? with
@@ -316,7 +318,8 @@ deriving Repr
 
 def parseBOp (s : String) : Option BOp :=
   match s with
-  | "b" => some .build | "e" => some .eval | "s" => some .sub | "z" => some .subNil | "y" => some .yield
+  | "b" => some .build | "w" => some .build   -- `w`: the harness lets 2.1 s pass (nothing may happen)
+  | "e" => some .eval | "s" => some .sub | "z" => some .subNil | "y" => some .yield
   | "o0" => some (.ob none) | "o1" => some (.ob (some .h1)) | "o2" => some (.ob (some .h2)) | "o3" => some (.ob (some .h3))
   | "u0" => some (.so none) | "u1" => some (.so (some .h1)) | "u2" => some (.so (some .h2)) | "u3" => some (.so (some .h3))
   | _ => none
